@@ -16,24 +16,25 @@ else
   ( cd coq && timeout 3000 make -j"${YP_JOBS:-16}" )
 fi
 mkdir -p build/ocaml
+python3 tools/mkextract.py
 # extraction: re-run when any model .vo is newer than model.ml
 need=0
 [ -f build/ocaml/model.ml ] || need=1
 if [ $need = 0 ]; then
-  if [ -n "$(find coq/Lib coq/Gen coq/Model coq/Spec coq/Extract/Extract.v -newer build/ocaml/model.ml \( -name '*.vo' -o -name 'Extract.v' \) | head -1)" ]; then need=1; fi
+  if [ -n "$(find coq/Lib coq/Gen coq/Model coq/Spec build/ocaml/Extract.v -newer build/ocaml/model.ml \( -name '*.vo' -o -name 'Extract.v' \) | head -1)" ]; then need=1; fi
 fi
 if [ $need = 1 ]; then
   ( cd build/ocaml && timeout 600 coqc -R ../../coq/Lib YP -R ../../coq/Gen YP -R ../../coq/Model YP \
       -R ../../coq/Spec YP -R ../../coq/Proofs YP -R ../../coq/Properties YP \
-      -w -extraction-opaque-accessed,-extraction-reserved-identifier ../../coq/Extract/Extract.v )
+      -w -extraction-opaque-accessed,-extraction-reserved-identifier Extract.v )
 fi
 bneed=$need
 [ -x build/model ] || bneed=1
-if [ $bneed = 0 ] && [ -n "$(find ocaml -name '*.ml' -newer build/model | head -1)" ]; then bneed=1; fi
+if [ $bneed = 0 ] && [ -n "$(find ocaml build/ocaml/handlers.ml -name '*.ml' -newer build/model | head -1)" ]; then bneed=1; fi
 if [ $bneed = 1 ]; then
   rm -f build/model; cp ocaml/*.ml build/ocaml/
   ( cd build/ocaml && timeout 900 ocamlfind ocamlopt -O2 -w -a -package str -linkpkg \
-      model.mli model.ml sexp.ml wire.ml $(ls drv_*.ml | LC_ALL=C sort) driver.ml -o ../model 2>&1 | grep -v '^ocamlfind: \[WARNING\]' || true )
+      model.mli model.ml sexp.ml wire.ml $(ls drv_*.ml | LC_ALL=C sort) handlers.ml driver.ml -o ../model 2>&1 | grep -v '^ocamlfind: \[WARNING\]' || true )
   [ -x build/model ] || { echo "build: OCaml driver failed to build"; exit 3; }
 fi
 echo "build: ok"
